@@ -83,14 +83,16 @@ def sp_profile(reg, value):
     return {o.name: value for o in reg.values() if o.type == "iarf" and o.name.startswith("sp_") and not is_modifying(o.name)}
 
 
-def singles(reg, base, readset, pred=None):
+def singles(reg, base, readset, pred=None, allow_lexer=False):
     """All 1-deviations (name, value) from `base` over options in `readset` (None = all options),
     restricted by pred(name).  Excludes lexer-altering/external/debug options always."""
     out = []
     for o in reg.values():
         if readset is not None and o.name not in readset:
             continue
-        if registry.lexer_or_external(o.name) or o.name.startswith("warn_level") or o.type == "string":
+        if o.name.startswith("warn_level") or o.type == "string" or o.name.startswith("debug_"):
+            continue
+        if registry.lexer_or_external(o.name) and not allow_lexer:
             continue
         if pred is not None and not pred(o.name):
             continue
